@@ -51,6 +51,9 @@ def special_scalars():
             v = (k * base) % R
             out.update((v, R - v, (v + 1) % R, (v - 1) % R))
     from vf.model import nt
+    # sparse keys: a set bit followed by 64 or more zero bits
+    out.update(((1 << 200) + (1 << 100) + 12345, 3 * (1 << 90) + 7, 5 << 128, (1 << 254) + (1 << 64), (1 << 130) + 1,
+                (1 << 250) + (1 << 180) + (1 << 90) + 1))
     out.update(nt.endo_scalars(R))        # lambda, lambda + 1, 2(lambda + 1), 1 - lambda ... for both eigenvalues
     out.update(((R - 1) // 2, (R + 1) // 2, (R - 1) // 3, 2 * (R - 1) // 3, R // 2 + X * X, (R - 1) // 2 - X * X))
     return sorted(v for v in out if 0 < v < R)
